@@ -764,6 +764,15 @@ func (m *Module) EmitGenConvert(x Value, typ ValueType) (insts []wat.Inst) {
 		case xt.Equal(m.I64), xt.Equal(m.U64):
 			insts = append(insts, wat.NewInstConvert_i32_wrap_i64())
 
+		case xt.Equal(m.F32) && typ.Equal(m.U32):
+			// values in [2^31, 2^32) do not fit the signed 32-bit truncation
+			insts = append(insts, wat.NewInstConvert_i64_trunc_f32_s())
+			insts = append(insts, wat.NewInstConvert_i32_wrap_i64())
+
+		case xt.Equal(m.F64) && typ.Equal(m.U32):
+			insts = append(insts, wat.NewInstConvert_i64_trunc_f64_s())
+			insts = append(insts, wat.NewInstConvert_i32_wrap_i64())
+
 		case xt.Equal(m.F32):
 			insts = append(insts, wat.NewInstConvert_i32_trunc_f32_s())
 
@@ -804,11 +813,28 @@ func (m *Module) EmitGenConvert(x Value, typ ValueType) (insts []wat.Inst) {
 		case xt.Equal(m.I64), xt.Equal(m.U64):
 			break
 
-		case xt.Equal(m.F32):
-			insts = append(insts, wat.NewInstConvert_i64_trunc_f32_s())
-
-		case xt.Equal(m.F64):
-			insts = append(insts, wat.NewInstConvert_i64_trunc_f64_s())
+		case xt.Equal(m.F32), xt.Equal(m.F64):
+			// values in [2^63, 2^64) do not fit the signed truncation: convert
+			// x - 2^63 and put the top bit back
+			ft := toWatType(xt)
+			trunc := func() wat.Inst {
+				if xt.Equal(m.F32) {
+					return wat.NewInstConvert_i64_trunc_f32_s()
+				}
+				return wat.NewInstConvert_i64_trunc_f64_s()
+			}
+			insts = append(insts, wat.NewInstConst(ft, "9223372036854775808"))
+			insts = append(insts, wat.NewInstLt(ft))
+			var small, big []wat.Inst
+			small = append(small, x.EmitPush()...)
+			small = append(small, trunc())
+			big = append(big, x.EmitPush()...)
+			big = append(big, wat.NewInstConst(ft, "9223372036854775808"))
+			big = append(big, wat.NewInstSub(ft))
+			big = append(big, trunc())
+			big = append(big, wat.NewInstConst(wat.I64{}, "-9223372036854775808"))
+			big = append(big, wat.NewInstXor(wat.I64{}))
+			insts = append(insts, wat.NewInstIf(small, big, []wat.ValueType{wat.U64{}}))
 		}
 		return
 
